@@ -414,9 +414,19 @@ def rule_missing(chk, prog):
   ok = ok and match.is_ext_call(cond, 'isclose') and cond.a[1][0] == frac[0] and cond.a[1][1] == sym.const(1)
   chk.check(ok, rule, f'{site}: skipna=False returns mean / fraction where the valid fraction ≈ 1 and NaN everywhere else (any missing source cell poisons the target cell)', sym.show(w, maxdepth=3)[:160], loc,
             'where(isclose(fraction, 1), mean / fraction, nan)', sym.show(w, maxdepth=3)[:160])
+  if ok:
+    # the ≈ 1 allowance absorbs the rounding of the float32 weight sums only: with allowance a, a missing source cell that covers less than
+    # a of a target cell is silently averaged away, so a bounds the overlap below which propagation is lost
+    kw = dict(cond.a[2])
+    extra = list(cond.a[1][2:])
+    tol = {'rtol': kw.get('rtol', extra[0] if extra else sym.const(1e-5)), 'atol': kw.get('atol', extra[1] if len(extra) > 1 else sym.const(1e-8))}
+    vals = {k: (t.a[0] if t.k == 'const' and isinstance(t.a[0], (int, float)) else None) for k, t in tol.items()}
+    okt = all(x is not None and 0 <= x <= 1e-3 for x in vals.values())
+    chk.check(okt, rule, f'{site}: the valid-fraction test allows rounding only (rtol, atol ≤ 1e-3: a missing cell covering more than 0.1 % of a target cell always propagates)', str(vals), loc,
+              'rtol ≤ 1e-3, atol ≤ 1e-3', str(vals))
   d = c.find_field('skipna')
   chk.check(d is not None and d[2] is not None and sym.unparse(d[2]) == 'False', rule, f'{HI}.ConservativeRegridder.skipna defaults to False (propagate)', sym.unparse(d[2]) if d and d[2] is not None else 'none', (c.file, c.lineno))
-  chk.at_least(rule, 4)
+  chk.at_least(rule, 5)
 
 
 def run(chk, prog, tier):
